@@ -35,7 +35,8 @@ SPEC = dict(
     assumptions=[
         'only executions produced by this run are judged (runtime monitoring, not proof)',
         'gcc 12 / x86-64 LP64 little-endian, A_SIZE_POINTER=8; library rebuilt from /repo working tree with -fsanitize=address,undefined',
-        'a_real = double (A_SIZE_REAL=8); the float and long double builds of the kernels are not executed',
+        'full harness: a_real = double (A_SIZE_REAL=8); the float and long double builds run the compact companion h_linalg_kern_w.c only (four products on small integers '
+        'against the integer definition, T1/T2 bitwise on full-precision values of the working type; counters w-*)',
         'where include/a/linalg.h is silent about m != n ("lower/upper triangular part", "diagonal" of an m x n matrix) the index '
         'definition of the property is used: lower part c<=r, upper part c>=r, diagonal r==c with min(m,n) entries; operands do not '
         'alias (all pointer parameters are __restrict); every dimension >= 1 (zero dimensions are outside the property quantifier)',
@@ -50,6 +51,6 @@ SPEC = dict(
                'are sampled.',
     level_note='trusted: the index-by-definition reference loops of the harness and gcc int64/double arithmetic; an out-of-bounds write that '
                'stores the value already present, or lands beyond the 8 guard cells and the ASan red zone inside another live block, is not '
-               'observed; a_real=double build only; dimensions > 40 not executed',
+               'observed; full clause set in the a_real=double build only; dimensions > 40 not executed',
     technique='exhaustive shape enumeration + random shapes with exact-arithmetic (bitwise) oracle, result canaries, input snapshots, ASan+UBSan',
 )
